@@ -328,7 +328,7 @@ class Gen:
                         'rmfix', 'iter', 'case', 'pad', 'apply', 'remove') and not op.get('ip') and op.get('d') is not None \
                 and op.get('r') is not None:
             self.last_derivation = (op['r'], op['d'])
-        if op['op'] in ('apply', 'remove', 'pad', 'replace', 'split', 'find') and r.random() < 0.2:
+        if op['op'] in ('apply', 'remove', 'pad', 'replace', 'split', 'find', 'splitlines', 'expandtabs') and r.random() < 0.2:
             op['kw'] = r.choice([1, 2, 3])   # keyword / defaulted argument forms of the same call
         if op['op'] == 'pad' and r.random() < 0.15:
             op['default_fill'] = True
@@ -398,7 +398,10 @@ class Gen:
     def g_slice(self, world):
         s = self.recv_slot(world)
         a, b = self.rng_pair(world.obs[s])
-        return {'op': 'slice', 'r': s, 'a': a, 'b': b, 'd': self.slot()}
+        op = {'op': 'slice', 'r': s, 'a': a, 'b': b, 'd': self.slot()}
+        if self.rng.random() < 0.1:
+            op['step1'] = True
+        return op
 
     def g_index(self, world):
         r = self.rng
@@ -414,7 +417,10 @@ class Gen:
     def g_clip(self, world):
         s = self.recv_slot(world)
         a, b = self.rng_pair(world.obs[s])
-        return {'op': 'clip', 'r': s, 'a': a, 'b': b, 'd': self.slot(), 'ip': self.ip()}
+        op = {'op': 'clip', 'r': s, 'a': a, 'b': b, 'd': self.slot(), 'ip': self.ip()}
+        if self.rng.random() < 0.2:
+            op['pos'] = True
+        return op
 
     def g_iter(self, world):
         op = {'op': 'iter', 'r': self.recv_slot(world), 'd': self.slot(), 'pick': self.rng.randrange(8)}
@@ -452,7 +458,7 @@ class Gen:
 
     def width(self, n):
         r = self.rng
-        w = r.choice([0, n - 1, n, n + 1, n + 2, n + 3, n + 4, n + 7, 2 * n + 1, r.randint(0, 20), 40])
+        w = r.choice([0, n - 1, n, n + 1, n + 2, n + 3, n + 4, n + 7, 2 * n + 1, r.randint(0, 20), 40, -2])
         if self.oracle.prop == 'C09' and r.random() < 0.03:
             w = r.choice([1000, 10 ** 4])
         return w
@@ -484,7 +490,7 @@ class Gen:
         else:
             sp = {'align': r.choice('<>^'), 'width': max(0, self.width(n)) if r.random() < 0.9 else None}
             if r.random() < 0.7:
-                sp['fill'] = r.choice([' ', '*', ':', '+', '-', '0', '5', 'é'])
+                sp['fill'] = r.choice([' ', '*', ':', '+', '-', '0', '5', 'é', '<', '>', '^'])
                 if r.random() < 0.5:
                     sp['flag'] = r.choice('+-')
             if sp.get('width') is None:
@@ -624,7 +630,7 @@ class Gen:
         op = {'op': 'replace', 'r': s, 'd': self.slot(), 'ip': self.ip(), 'old': old,
               'new': self.operand(world, s if r.random() < 0.3 else None, maxlen=6, esc=self.oracle.prop in ('C11', 'C09', 'C13', 'C08'))}
         if r.random() < 0.4:
-            op['count'] = r.choice([-1, 0, 1, 2, 9])
+            op['count'] = r.choice([-1, 0, 1, 2, 9, -2, -5])
         return op
 
     def g_expandtabs(self, world):
@@ -653,7 +659,9 @@ class Gen:
                 pat = r.choice(['.', 'a.', '(', 'a+', '[a]', '\\', '^', '$', 'a|b', '*'])
         how = r.choice(['format', 'format', 'unformat'])
         op = {'op': 'fmatch', 'r': s, 'd': self.slot(), 'ip': self.ip(), 'how': how, 'pat': pat, 'regex': regex,
-              'case': r.random() < 0.5, 'count': r.choice([-1, -1, 0, 1, 2, 3])}
+              'case': r.random() < 0.5, 'count': r.choice([-1, -1, 0, 1, 2, 3, -2, -7])}
+        if r.random() < 0.3:
+            op['defaults'] = True
         if how == 'format':
             op['st'] = self.settings()
             op['star'] = r.random() < 0.5 and not isinstance(op['st'], str)
@@ -691,8 +699,9 @@ class Gen:
         s = self.recv_slot(world)
         o = world.obs[s]
         n = len(o.text)
-        a = self.index(o, allow_out=False)
-        b = self.index(o, allow_out=False)
+        far = r.random() < 0.15       # bounds beyond +-len are normalised like slice bounds
+        a = self.index(o, allow_out=far)
+        b = self.index(o, allow_out=far)
         st = self.selection(o) if r.random() < 0.9 else None
         return {'op': 'find', 'r': s, 'st': st, 'a': a if (a is not None or r.random() < 0.3) else 0, 'b': b,
                 'rev': r.random() < 0.3}
